@@ -243,6 +243,7 @@ class SimKernel(object):
         self.last_cmd = None
         self.read_chunk = read_chunk
         self.ready_rng = ready_rng
+        self.ready_p = 0.8
         self.programs = {p['name']: p for p in programs}
         # ---- the real options object, configured by hand (no config file, no daemonisation)
         o = so.ServerOptions()
@@ -582,6 +583,12 @@ class SimKernel(object):
                 self.faults[a[1]] = [a[2], a[3] if len(a) > 3 else 1]
             elif k == 'missing':
                 (self.missing.add if a[2] else self.missing.discard)(a[1])
+            elif k == 'lateio':
+                # from now on a readable pipe is reported by poll() only 4 times out of 5: output that arrives just after
+                # poll() returned is read later -- by the next pass, or by finish()'s drain() if the child is reaped first
+                import random as _random
+                self.ready_rng = _random.Random(a[1])
+                self.ready_p = a[2] if len(a) > 2 else 0.8
         self.rec('poll', passno=self.passno, dt=dt)
         r, w = [], []
         for fd in sorted(rset):
@@ -592,7 +599,7 @@ class SimKernel(object):
                 continue
             p = ent[0]
             ready = bool(p.buf) or (p.child_writer is None and not p.wfds)
-            if ready and (self.ready_rng is None or self.ready_rng.random() < 0.8):
+            if ready and (self.ready_rng is None or self.ready_rng.random() < self.ready_p):
                 r.append(fd)
         for fd in sorted(wset):
             if fd == RpcDispatcher.RPC_FD:
